@@ -631,6 +631,23 @@ def odd_cases():
                 ('StoryInsert', 'many carried', B.story_insert('C', [new_story(f'N{k}') for k in range(n - 2)] + [new_story('A'), new_story('N0')])),
                 ('StoryAppend', 'many carried', B.story_append([B.story(f'N{k}', []) for k in range(n)]))]:
             case(cls, f'{n} named elements: {lbl}', msg, mro)
+    # ... and the same lists "to the end" (blank / absent target), at the sizes around 16 and 32 too
+    for n in (16, 17, 32, 33, 65):
+        its = [f'w{k:03d}' for k in range(3, 3 + n)]
+        sts = [f'Z{k:03d}' for k in range(2, 2 + n)]
+        for cls, lbl, msg in [
+                ('ItemMoveMultiple', 'to the end', B.item_move_multiple('W', list(reversed(its)) + [BLANK])),
+                ('EAItemMove', 'to the end', B.ea('MOVE', {'storyID': 'W', 'itemID': BLANK}, [B.ids('itemID', its[::2] + its[1::2])])),
+                ('EAItemMove', 'to the end, no itemID tag', B.ea('MOVE', {'storyID': 'W'}, [B.ids('itemID', its)])),
+                ('EAStoryMove', 'to the end', B.ea('MOVE', {'storyID': BLANK}, [B.ids('storyID', list(reversed(sts)))])),
+                ('EAStoryMove', 'to the end, one unknown', B.ea('MOVE', {'storyID': BLANK}, [B.ids('storyID', sts[:-1] + ['ZZ'])])),
+                ('StoryInsert', 'to the end', B.story_insert(BLANK, [B.story(f'N{k}', []) for k in range(n)])),
+                ('EAStoryInsert', 'to the end', B.ea('INSERT', {'storyID': BLANK}, [[B.story(f'N{k}', []) for k in range(n - 1)] + [B.story('A', [])]])),
+                ('ItemInsert', 'to the end', B.item_insert('W', BLANK, [B.item(f'n{k}') for k in range(n)])),
+                ('EAItemInsert', 'to the end', B.ea('INSERT', {'storyID': 'W', 'itemID': BLANK}, [[B.item(f'n{k}') for k in range(n)]])),
+                ('EAItemDelete', 'exactly n', B.ea('DELETE', {'storyID': 'W'}, [B.ids('itemID', its)])),
+                ('StoryDelete', 'exactly n', B.story_delete(sts))]:
+            case(cls, f'{n} named elements: {lbl}', msg, mro)
     # a story with 300 items: the same for item indexes
     wide = B.ro_doc([st('A'), B.story('W', [B.item(f'w{k:03d}') for k in range(300)]), st('C')])
     for cls, lbl, msg in [
